@@ -368,6 +368,7 @@ func confTreeOK() bool {
 //@ func (ki *KeyInfo) Prepare
 //@   props C15 C11 C01
 //@   ints bv
+//@   unreachable_ok with TreeDepth enumerated as 0 the early return for a path shorter than the depth is dead
 //@   enumerate Conf.TreeDepth in 0 1 2
 //@   requires confTreeOK() && (ki.KeyIsPath ==> len(ki.StringKey) <= 16)
 //@   modifies ki.KeyPath, ki.KeyPathBuf, ki.BucketID, ki.KeyHash
